@@ -16,6 +16,9 @@ Driver handler for the C19 slice: Walk / Transform / paths / path sets.
   path.apply <path> <value> | path.laststep <path> <value>
   path.equals <orc> <p> <q> | path.hasprefix <orc> <p> <q> | val.rawequals <orc> <a> <b>
   pathset.hash <path> | pathset.equiv <p> <q>
+  path.build <instr>*   instr := (ga <src> <name>) | (ix <src> <value>) | (ixi <src> <int>) | (ixs <src> <str>)
+                        -- register 0 is the empty path, instruction k fills register k by extending
+                        -- register <src> with Path.GetAttr / Index / IndexInt / IndexString → all registers
   pathset.run <nregs> <op>*    op := (add i p) (addall i p) (rem i p) (has i p) (list i) (empty i)
                                      (union d a b) (inter d a b) (sub d a b) (symd d a b) (equal a b)
 -/
@@ -272,6 +275,19 @@ def handleWalk : Handler := fun op args =>
   | "pathset.hash", [p] => do pure (toString (PathSet.hash (← Path.ofSexp p)))
   | "pathset.equiv", [p, q] => do
     pure (resTag boolStr (PathSet.equiv (← Path.ofSexp p) (← Path.ofSexp q)))
+  | "path.build", instrs => do
+    let regs ← instrs.foldlM (fun (regs : List Path) i =>
+      match i with
+      | .list [.atom "ga", src, n] => do
+        pure (regs ++ [Path.getAttr (← regs[← Sexp.decNat src]?) (← Sexp.decStr n)])
+      | .list [.atom "ix", src, k] => do
+        pure (regs ++ [Path.index (← regs[← Sexp.decNat src]?) (← Value.ofSexp k)])
+      | .list [.atom "ixi", src, k] => do
+        pure (regs ++ [Path.indexInt (← regs[← Sexp.decNat src]?) (← Sexp.decInt k)])
+      | .list [.atom "ixs", src, k] => do
+        pure (regs ++ [Path.indexString (← regs[← Sexp.decNat src]?) (← Sexp.decStr k)])
+      | _ => none) [[]]
+    pure (listStr (regs.map pathKey))
   | "pathset.run", n :: ops => do
     let n ← Sexp.decNat n
     let ops ← ops.mapM decPSOp
